@@ -70,7 +70,7 @@ func main() {
 	fs.Parse(os.Args[2:])
 	switch os.Args[1] {
 	case "extract":
-		if err := extract(); err != nil {
+		if err := extract(*repo); err != nil {
 			fmt.Fprintln(os.Stderr, "c13 extract:", err)
 			os.Exit(3)
 		}
@@ -97,7 +97,11 @@ func main() {
 
 // extract reads the shape of the field-mask templates of the tree under test (the harness is linked against it):
 // preMut: the list/set pre-count loop mutates its own bound; zeroAll: the zero-value else-branch is emitted for every field.
-func extract() error {
+func extract(repo string) error {
+	hm, err := headMax(repo)
+	if err != nil {
+		return err
+	}
 	loop := regexp.MustCompile(`for\s+i\s*:=\s*0\s*;\s*i\s*<\s*(len\(|[A-Za-z_][A-Za-z_0-9]*)\s*[^;]*;\s*i\+\+\s*\{`)
 	shape := func(name, src string) (bool, error) {
 		// the pre-count loop is the first `for i := 0; i < B; i++` of the template (before the validate_set loops and the element loop)
@@ -160,8 +164,11 @@ func extract() error {
    templates.FieldWriteList / FieldWriteSet pre-count loop, StructLikeWriteField zero-value else-branch); do not edit. -/
 namespace Generated.C13
 def tpl : Gen.Mask.Tpl := { preMut := %v, zeroAll := %v, blackAll := %v, reqSub := %v }
+/-- fieldmask/storage.go _MaxFieldIDHead: field ids 0..headMax are kept in an array, all others in a map (the model of C14 keeps
+one association list; the harness aims field ids at headMax-1, headMax, headMax+1 on every run) -/
+def headMax : Nat := %d
 end Generated.C13
-`, l, zeroAll, blackAll, reqSub)
+`, l, zeroAll, blackAll, reqSub, hm)
 	return nil
 }
 
@@ -198,6 +205,53 @@ func (c *check) line() string {
 		toks = append(toks, strconv.Itoa(e.pos), maskSpec(e.black, e.tree, false))
 	}
 	return strings.Join(toks, " ") + " " + c.value.String()
+}
+
+// headMax reads `_MaxFieldIDHead` from fieldmask/storage.go of the repository under test (the last field id kept in the array part
+// of the library's slot table; larger and negative ids live in a map).
+func headMax(repo string) (int, error) {
+	src, err := os.ReadFile(filepath.Join(repo, "fieldmask", "storage.go"))
+	if err != nil {
+		return 0, err
+	}
+	m := regexp.MustCompile(`(?m)^\s*(?:const\s+)?_MaxFieldIDHead\s*=\s*(\d+)`).FindSubmatch(src)
+	if m == nil {
+		return 0, fmt.Errorf("_MaxFieldIDHead not found in fieldmask/storage.go")
+	}
+	return strconv.Atoi(string(m[1]))
+}
+
+// boundaryIDs: field ids at the edges of the slot table and of the id range
+func boundaryIDs(h int) []int16 {
+	var out []int16
+	seen := map[int]bool{}
+	for _, x := range []int{h - 1, h, h + 1, 2*h + 1, 2*h + 2, 255, 256, 32767, 0, 1, -1, -32768} {
+		if x >= -32768 && x <= 32767 && !seen[x] {
+			seen[x] = true
+			out = append(out, int16(x))
+		}
+	}
+	return out
+}
+
+// aimIDs gives about a third of the struct-likes of a generated program field ids from the boundary pool (all ids explicit).
+func aimIDs(p *idlgen.Program, r *vl.Rng, pool []int16, count func(string)) *idlgen.Program {
+	for _, f := range p.Files {
+		for _, st := range f.Structs {
+			pick := r.Chance(45)
+			start := r.Intn(len(pool))
+			if !pick || len(st.Fields) == 0 || len(st.Fields) > len(pool) {
+				continue
+			}
+			for i, fd := range st.Fields {
+				fd.ID, fd.HasID = pool[(start+i)%len(pool)], true
+			}
+			if count != nil {
+				count("struct.boundary_ids")
+			}
+		}
+	}
+	return p
 }
 
 // uniqueFiles gives every file of the program a path no other unit of the batch uses.
@@ -242,6 +296,12 @@ func run(repo, dir string, seed uint64, nprog, nvalues, nmasks int, keep bool) i
 	r := vl.NewRng(vl.NewRng(seed).U64())
 
 	// ---- units
+	hm, err := headMax(repo)
+	if err != nil {
+		fmt.Println("ERROR:", err)
+		return 2
+	}
+	pool := boundaryIDs(hm)
 	var units []batch.Unit
 	expectReject := map[int]bool{}
 	for i := 0; i < nprog; i++ {
@@ -253,13 +313,17 @@ func run(repo, dir string, seed uint64, nprog, nvalues, nmasks int, keep bool) i
 			cfg.Unions, cfg.Exceptions = false, false
 		}
 		ps := r.U64()
+		as := r.U64()
 		for j, o := range optionSets {
 			// the reflection registry of thrift_reflection is global and keyed by IDL file path: every unit of the batch
 			// (one process) needs its own file names, so the program is generated once per unit from the same seed
 			p := uniqueFiles(idlgen.Generate(vl.NewRng(ps), cfg), len(units))
+			var cnt func(string)
 			if j == 0 {
 				p.Stats(out.Count)
+				cnt = out.Count
 			}
+			aimIDs(p, vl.NewRng(as), pool, cnt)
 			if j == 2 && hasUnionField(p) {
 				expectReject[len(units)] = true
 			}
@@ -268,6 +332,9 @@ func run(repo, dir string, seed uint64, nprog, nvalues, nmasks int, keep bool) i
 	}
 	for _, o := range optionSets {
 		units = append(units, batch.Unit{Prog: uniqueFiles(directedProgram(), len(units)), Recurse: true, Options: o, Tag: "directed", NoSynth: true})
+	}
+	for _, o := range optionSets {
+		units = append(units, batch.Unit{Prog: uniqueFiles(wideProgram(pool), len(units)), Recurse: true, Options: o, Tag: "directed", NoSynth: true})
 	}
 	for j, o := range optionSets {
 		if j == 1 {
@@ -598,7 +665,13 @@ func verdict(c *check, ans string) verdictT {
 	switch f[0] {
 	case "maskerr", "maskpanic":
 		// the path sets are valid by construction; a struct without fields cannot be named by `.*`, everything else must be accepted
-		if entersUnionElems(s, rt, c.tree) {
+		union := entersUnionElems(s, rt, c.tree)
+		for _, e := range c.env {
+			if entersUnionElems(s, s.Structs[c.sidx].Fields[e.pos].Type, e.tree) {
+				union = true
+			}
+		}
+		if union {
 			return verdictT{key: "union-element-paths-rejected", msg: "fieldmask.NewFieldMask refuses every path into a list/set/map whose element type is a union or exception (switchFt: Invalid)", expected: "a mask", observed: f[0]}
 		}
 		return verdictT{key: "valid-paths-rejected", msg: "fieldmask.NewFieldMask refuses a path set that is valid for the descriptor (" + f[0] + ")", expected: "a mask", observed: f[0]}
